@@ -1,5 +1,6 @@
 """C04 — encoding then decoding a message returns the same message (structural clauses)."""
 from .. import analysis as A
+from .. import panics as P
 from ..analysis import Call, Path, Param, Konst
 from . import codec
 from .codec import T, SER, DES, WB, CB
@@ -249,6 +250,13 @@ def run(ctx):
                             off = A.peel(A.peel(ie[1])[3])[2]
                         elif ie[0] == "bin" and ie[1].startswith("Add") and A.path_str(ie[2]) == "param1.position":
                             off = A.peel(ie[3])[2]
+                    elif el[0] == "index" and A.peel(el[2])[0] == "const":
+                        # octets[k] of `self.take(width)?`: take returns &self.octets[self.position..self.position + n] (derived summary)
+                        src = codec.untry(el[1])
+                        P.set_program(prog)
+                        if src[0] == "call" and src[1] == CB + "take" and A.peel(src[2][0]) == ("param", 1) and A.peel(src[2][1])[0] == "const" and A.peel(src[2][1])[2] == width \
+                                and P.slice_len_summary(CB + "take") == ("param", 2) and P._SLICE_START.get(CB + "take") == {("param1.octets", "param1.position")}:
+                            off = A.peel(el[2])[2]
                     idx.append(off)
                 ok = idx == list(range(width))
         ctx.check(ok, "C04.2", "primitive:" + nm, "from_be_bytes([octets[pos], .. octets[pos+%d]])" % (width - 1), "%s does not read %d consecutive big-endian octets" % (nm, width), pf.loc())
@@ -394,8 +402,25 @@ def run(ctx):
     u = prog.fn(SER + "usize_to_u16")
     ur = A.Resolver(u)
     rets = A.return_exprs(u, ur)
-    ok = any(A.peel(e)[0] == "agg" and A.peel(e)[2] == "Ok" and "try_from" in A.show(e) for b, e in rets) and any(A.peel(e)[0] == "agg" and A.peel(e)[2] == "Err" for b, e in rets)
-    ctx.check(ok, "C04.7", "usize_to_u16", "Ok(u16::try_from(n)) or Err", "usize_to_u16 returns %s" % [A.show(e)[:60] for b, e in rets], u.loc())
+    def lossless(e):
+        """a Result whose Ok payload can only be the checked conversion of the parameter"""
+        pe = A.peel(e)
+        while pe[0] == "call" and pe[1].endswith("Result::<T, E>::map_err") and pe[2]:
+            pe = A.peel(pe[2][0])                       # map_err keeps the Ok payload
+        if pe[0] == "call" and (pe[1].endswith("::try_from") or (pe[4] or "").endswith("TryInto::try_into")) and pe[2] and A.peel(pe[2][0]) == ("param", 1):
+            return "conv"
+        if pe[0] == "agg" and pe[2] == "Ok":
+            v = A.peel(dict(pe[3])["0"])
+            inner = [x for x in A.walk(v) if x[0] == "call" and (x[1].endswith("::try_from") or (x[4] or "").endswith("TryInto::try_into"))]
+            if v[0] == "field" and v[1][0] == "downcast" and v[1][2] == "Ok" and inner and not any(x[0] == "cast" for x in A.walk(v)):
+                return "ok"
+        if pe[0] == "agg" and pe[2] == "Err":
+            return "err"
+        return None
+    kinds = [lossless(e) for b, e in rets]
+    casts = [st for b, i, st in u.assigns() if st["rv"]["k"] == "cast" and st["rv"].get("ty") in ("u16", "u8")]
+    ok = None not in kinds and ("conv" in kinds or ("ok" in kinds and "err" in kinds)) and not casts
+    ctx.check(ok, "C04.7", "usize_to_u16", "the count is converted with a checked u16::try_from (Ok only when it fits), never truncated", "usize_to_u16 returns %s" % [A.show(e)[:60] for b, e in rets], u.loc())
     # section loops: each section serialised in order with the element serialiser; reader symmetrical
     md = prog.fn(IMPL(DES, "Message", "deserialise"))
     mdr = A.Resolver(md)
